@@ -621,3 +621,60 @@ def geodesic_of_a_segment(tier, rng, rep):
             rep.case(key=(t, model), nontrivial=True, sample=inp if (t, model) == (0, "poincare") else None)
             if len(rep.failures) >= 3:
                 return
+
+
+@bounded(P, "images_of_segments_under_arrays_of_isometries", functions=["geometry_tools/projective.py:Transformation.apply", H + "Segment._compute_aux_data", H + "Subspace.sphere_parameters", H + "Segment.ideal_endpoint_coords"],
+         note="the statement for the segments obtained by applying k isometries to m segments elementwise, pairwise and pairwise_reversed (k = m and k != m): for every image segment the ideal "
+              "endpoints are lightlike and on the Klein line through ITS endpoints, and the reported sphere passes through its endpoints")
+def images_of_segments_under_arrays_of_isometries(tier, rng, rep):
+    N = 40 if tier == 'thorough' else 10
+    rep.rule = "n = 2, 3, 4; k, m in {1, 2, 3}; broadcast elementwise (k = m), pairwise, pairwise_reversed; random interior endpoints; conjugated rotations / loxodromics; both conformal models"
+    rep.bound = f"{N} rounds x 3 broadcast rules"
+    for t in range(N):
+        n = 2 + t % 3
+        k, m = [(2, 2), (3, 2), (2, 3), (3, 3), (1, 3)][t % 5]
+        J = spec.J(n + 1)
+        d_ = rng.normal(size=(m, 2, n))
+        kl = d_ / np.linalg.norm(d_, axis=-1, keepdims=True) * rng.uniform(0.1, 0.85, size=(m, 2, 1))
+        isos = []
+        for _ in range(k):
+            C = h.Point((lambda w: w / np.linalg.norm(w) * rng.uniform(0.1, 0.7))(rng.normal(size=n)), model="klein").origin_to()
+            isos.append(np.asarray((C @ h.Isometry.standard_rotation(rng.uniform(0, 6), dimension=n) @ h.Isometry.standard_loxodromic(n, rng.uniform(0.6, 1.8))).proj_data, dtype=float))
+        Mi = np.array(isos)
+        for mode in ("elementwise", "pairwise", "pairwise_reversed"):
+            if mode == "elementwise" and k != m:
+                continue
+            inp = {"n": n, "isometries": k, "segments": m, "broadcast": mode, "klein_endpoints": kl.tolist()}
+
+            def body():
+                S = h.Segment(h.Point(kl.copy(), model="klein"))
+                T = h.Isometry(Mi.copy())
+                Im = T.apply(S, broadcast=mode)
+                want_shape = {"elementwise": (m,), "pairwise": (m, k), "pairwise_reversed": (k, m)}[mode]
+                if Im.shape != want_shape:
+                    rep.fail("composite_shape", f"{Im.shape} expected {want_shape}", inp); return
+                p = np.asarray(Im.proj_data, dtype=float)
+                ide = np.asarray(Im.ideal_endpoint_coords("klein"), dtype=float)
+                if ide.shape[:-2] != want_shape:
+                    rep.fail("ideal_endpoints_shape", f"ideal endpoints of shape {ide.shape} for image segments of shape {want_shape}", inp); return
+                kk_ = p[..., 1:] / p[..., :1]
+                for model in ("poincare", "halfspace"):
+                    with np.errstate(all='ignore'):
+                        c, r = Im.sphere_parameters(model=model)
+                    c, r = np.asarray(c, dtype=float), np.asarray(r, dtype=float)
+                    conv = (lambda q_: spec.k2p(q_)) if model == "poincare" else (lambda q_: spec.p2h(spec.k2p(q_)))
+                    with np.errstate(all='ignore'):
+                        em = conv(kk_)
+                    for idx in np.ndindex(*want_shape):
+                        a_, b_ = kk_[idx]
+                        for e in ide[idx]:
+                            if abs(e @ e - 1) > 1e-6 or np.linalg.matrix_rank(np.stack([b_ - a_, e - a_]), tol=1e-6) > 1:
+                                rep.fail("ideal_endpoints_on_the_line_through_the_endpoints", f"image segment {idx} ({mode})", inp); return
+                        if np.all(np.isfinite(c[idx])) and np.isfinite(r[idx]) and r[idx] < 1e3 and np.all(np.isfinite(em[idx])) and np.max(np.abs(em[idx])) < 1e3:
+                            for j in (0, 1):
+                                if abs(np.linalg.norm(em[idx][j] - c[idx]) - r[idx]) > 1e-6 * (1 + r[idx]) ** 2:
+                                    rep.fail("sphere_through_endpoints", f"image segment {idx} ({mode}, {model})", inp); return
+            rep.attempt("sphere_runs", inp, body)
+            rep.case(key=(t, mode), nontrivial=mode != "elementwise", sample=inp if (t, mode) == (0, "pairwise_reversed") else None)
+            if len(rep.failures) >= 3:
+                return
